@@ -197,11 +197,11 @@ class C02(runner.Check):
 		if leg == "rng":
 			# a few long sequences: some code paths depend on a character having
 			# hundreds of outgoing transitions
-			L = r.wchoice([r.randint(2, 12), r.randint(12, 60), r.randint(300, 2500)],
-				[10, 10, 1])
+			L = r.wchoice([r.randint(2, 12), r.randint(12, 60), r.randint(300, 2500),
+				r.randint(65600, 67000)], [200, 200, 20, 1])
 			if L > 60:
 				A = r.choice([2, 2, 4])
-			n_ex = r.randint(1, 3)
+			n_ex = r.randint(1, 3) if L < 60000 else 1
 			seqs = [gen_sequence(r, A, L) for _ in range(n_ex)]
 			s = r.randint(0, max(0, L - 3))
 			e = r.randint(min(L, s + 3), L) if r.chance(0.7) else L
@@ -213,10 +213,11 @@ class C02(runner.Check):
 				"rng_seed": S("schedule").subseed(), "random_state": r.randint(0, 10 ** 6),
 				"xkind": r.wchoice(["float32", "int8", "float64", "strided"], [4, 2, 1, 1])}
 		# hist
-		L = r.wchoice([r.randint(4, 40), r.randint(300, 2500)], [12, 1])
+		L = r.wchoice([r.randint(4, 40), r.randint(300, 2500), r.randint(65600, 70000)],
+			[48, 4, 1])
 		if L > 40:
 			A = r.choice([2, 2, 4])
-		pool = [gen_sequence(r, A, L) for _ in range(r.randint(1, 3))]
+		pool = [gen_sequence(r, A, L) for _ in range(r.randint(1, 3) if L < 60000 else 1)]
 		seeds = [r.randint(0, 2 ** 31 - 100) for _ in range(2)] + [0, 1] + \
 			[r.choice([-1, -2, -7, -1000, -(2 ** 31) + 5])]
 		regions = [(0, -1), (0, L)]
@@ -224,7 +225,7 @@ class C02(runner.Check):
 			s = r.randint(0, L - 3)
 			regions.append((s, r.randint(s + 3, L)))
 		ops = []
-		for _ in range(r.randint(5, 30)):
+		for _ in range(r.randint(5, 30) if L < 60000 else r.randint(3, 6)):
 			kind = r.wchoice(["dinuc", "mono", "np_seed", "np_draw", "nb_seed", "nb_draw",
 				"threads", "torch_seed"], [8, 5, 1, 1, 1, 1, 1, 1])
 			op = {"kind": kind}
@@ -236,6 +237,12 @@ class C02(runner.Check):
 					op["rs"] = -op["rs"]        # RandomState rejects negative seeds
 				op["seed_type"] = r.wchoice(["int", "numpy.int64", "numpy.int32"], [5, 1, 1])
 				op["xkind"] = r.wchoice(["float32", "int8", "float64", "strided"], [4, 2, 1, 1])
+				if r.chance(0.35):
+					# a second thread touching process-global generators in the middle
+					# of the call (statement-level pre-emption points)
+					op["interfere"] = {"points": sorted(set(r.randint(1, 60)
+						for _ in range(r.randint(1, 3)))), "what": r.choice(["np_draw",
+						"np_seed", "torch_seed", "py_random"])}
 			elif kind in ("np_seed", "nb_seed", "torch_seed"):
 				op["v"] = r.randint(0, 10 ** 6)
 			elif kind == "threads":
@@ -428,7 +435,26 @@ class C02(runner.Check):
 						rs = op["rs"]
 						if op.get("seed_type", "int") != "int":
 							rs = getattr(numpy, op["seed_type"].split(".")[1])(rs)
-						box["Y"] = fn(X, start=s, end=e, n=op["n"], random_state=rs)
+						itf = op.get("interfere")
+						if itf:
+							from engines.preempt import run_with_interference
+							import random as _random
+
+							def interfere(k):
+								if itf["what"] == "np_draw":
+									numpy.random.rand(3)
+								elif itf["what"] == "np_seed":
+									numpy.random.seed(k * 7919 % 100003)
+								elif itf["what"] == "torch_seed":
+									torch.manual_seed(k * 31)
+								else:
+									_random.random()
+							box["Y"], npts, fired = run_with_interference(lambda: fn(X, start=s,
+								end=e, n=op["n"], random_state=rs), "tangermeme", itf["points"],
+								interfere)
+							box["fired"] = fired
+						else:
+							box["Y"] = fn(X, start=s, end=e, n=op["n"], random_state=rs)
 					except BaseException as ex:
 						box["exc"] = ex
 				if op.get("thread"):
@@ -437,10 +463,15 @@ class C02(runner.Check):
 					out.bump("probe.call_from_other_thread")
 				else:
 					call()
+				if box.get("fired"):
+					out.bump("probe.interference_inside_call", len(box["fired"]))
+					nontrivial = True
 				desc = "op %d %s(examples=%r, start=%d, end=%d, n=%d, random_state=%d%s)" % (
 					oi, "dinucleotide_shuffle" if kind == "dinuc" else "shuffle", op["ex"],
 					s, e, op["n"], op["rs"], (" as %s" % op.get("seed_type", "int")) +
-					(", other thread" if op.get("thread") else ""))
+					(", other thread" if op.get("thread") else "") +
+					((", interfering %s at statements %r" % (op["interfere"]["what"],
+					box.get("fired"))) if op.get("interfere") else ""))
 				key = (kind, tuple(op["ex"]), s, e, op["n"], op["rs"], str(X.dtype))
 				if "exc" in box:
 					ex = box["exc"]
@@ -525,7 +556,9 @@ class C02(runner.Check):
 			"fault_kinds": ["rng.perm.uniform", "rng.perm.identity", "rng.perm.reverse",
 				"rng.perm.rotate", "rng.perm.enumerated", "global.np_seed", "global.np_draw",
 				"global.numba_seed", "global.numba_draw", "global.torch_seed",
-				"global.numba_threads", "call from another thread"]}
+				"global.numba_threads", "call from another thread", "sched.interfering thread "
+				"touching global generators at statement k inside a call (settrace "
+				"pre-emption points)"]}
 
 
 _NB = None
